@@ -2,12 +2,19 @@ package checks
 
 import (
 	"bytes"
+	"context"
 	"encoding/hex"
 	"errors"
 	"fmt"
+	"github.com/ovh/kmip-go"
+	"github.com/ovh/kmip-go/kmipserver"
+	"github.com/ovh/kmip-go/payloads"
 	"io"
+	"net"
 	"runtime"
+	"sync"
 	"sync/atomic"
+	"time"
 
 	"github.com/ovh/kmip-go/ttlv"
 	"verifharness/vlib"
@@ -171,7 +178,7 @@ func runC07(c *vlib.Check) {
 	c.Rule = fmt.Sprintf("explicit-state search over transport answers: message sequences of length <=%d over sizes {8,16,24,520,1032} and top-level padded scalars (5-byte text, 9-byte byte string, integer); every Read(p) is answered with a size from {len(p),1,2,7,8,len(p)-1} "+
 		"(deviation = any answer other than len(p), bound %d, iterated); all 2^(L-1) segmentations of every stream of L<=%d bytes; truncation of every stream at every offset (with full reads and with 1-byte reads); "+
 		"announced value lengths {limit-24 .. limit+8 incl. unaligned ones, 2^31-16 .. 2^31+8, 0xBFFFFFF8, 2^32-16 .. 2^32-1} against limits {64, 1 MiB}; every answer sequence also with the limit set to the largest message of the sequence (a per-message limit must not act on the stream total); "+
-		"size histories: all ordered pairs of message sizes 16..2048 step 8 (thorough: ..8192, and triples on a 136-byte grid) on one stream, with and without that limit, and all ordered pairs of large messages {4 KiB .. 128 KiB, around powers of two}. Reference model: split the byte stream at the announced padded lengths. "+
+		"size histories: all ordered pairs of message sizes 16..2048 step 8 (thorough: ..8192, and triples on a 136-byte grid) on one stream, with and without that limit, and all ordered pairs of large messages {4 KiB .. 128 KiB, around powers of two}. The rejection is also driven through the real server (1 MiB limit): an oversized header followed by a valid request is answered once and the following bytes are not served. Reference model: split the byte stream at the announced padded lengths. "+
 		"states = distinct (stream, answer sequence) pairs, transitions = Recv calls", maxSeq, maxDev, segL)
 	c.Assumptions = []string{"the transport never returns more than len(p) bytes and returns at least one byte per successful Read"}
 	var seqs [][]int
@@ -409,6 +416,90 @@ func runC07(c *vlib.Check) {
 			}
 		}
 	}
+	states += c07Server(c)
 	c.States = states
-	c.Exhaustive = true
+	c.Exhaustive = c.Exhaustive || !c07Inconclusive
+	if c07Inconclusive {
+		c.Exhaustive = false
+	}
+}
+
+var c07Inconclusive bool
+
+type c07Listener struct {
+	ch     chan net.Conn
+	closed chan struct{}
+	once   sync.Once
+}
+
+func (l *c07Listener) Accept() (net.Conn, error) {
+	select {
+	case c := <-l.ch:
+		return c, nil
+	case <-l.closed:
+		return nil, net.ErrClosed
+	}
+}
+func (l *c07Listener) Close() error   { l.once.Do(func() { close(l.closed) }); return nil }
+func (l *c07Listener) Addr() net.Addr { return &net.UnixAddr{Name: "c07", Net: "unix"} }
+
+// c07Server: the same rejection seen through the real server, which receives through a Stream with a 1 MiB limit: a header
+// announcing more than the limit followed by a complete, valid request. The server answers the oversized message once
+// (invalid message) and must not treat the bytes that follow the rejected header as further messages: no handler runs and
+// nothing else is answered.
+func c07Server(c *vlib.Check) int64 {
+	var n int64
+	good := ttlv.MarshalTTLV(func() *kmip.RequestMessage {
+		m := kmip.NewRequestMessage(kmip.V1_4, &payloads.ActivateRequestPayload{UniqueIdentifier: "smuggled"})
+		return &m
+	}())
+	for _, vl := range []int64{1 << 20, 1<<20 + 8, 2 << 20, 0x7FFFFFF8, 0x80000000, 0xFFFFFFF8} {
+		n++
+		c.Eval([]byte(fmt.Sprint("server-oversize", vl)), true)
+		rep := map[string]any{"kind": "server-oversize", "announced_value_length": vl}
+		var calls atomic.Int64
+		exec := kmipserver.NewBatchExecutor()
+		exec.Route(kmip.OperationActivate, kmipserver.HandleFunc(func(ctx context.Context, req *payloads.ActivateRequestPayload) (*payloads.ActivateResponsePayload, error) {
+			calls.Add(1)
+			return &payloads.ActivateResponsePayload{UniqueIdentifier: req.UniqueIdentifier}, nil
+		}))
+		lis := &c07Listener{ch: make(chan net.Conn), closed: make(chan struct{})}
+		srv := kmipserver.NewServer(lis, exec)
+		served := make(chan struct{})
+		go func() { defer close(served); _ = srv.Serve() }()
+		a, b := net.Pipe()
+		lis.ch <- b
+		hdr := []byte{0x42, 0x00, 0x78, 0x01, byte(vl >> 24), byte(vl >> 16), byte(vl >> 8), byte(vl)}
+		go func() { _, _ = a.Write(append(append([]byte{}, hdr...), good...)) }()
+		st := ttlv.NewStream(a, 0)
+		_ = a.SetReadDeadline(time.Now().Add(20 * time.Second))
+		responses := 0
+		var lastErr error
+		for {
+			var resp kmip.ResponseMessage
+			if err := st.Recv(&resp); err != nil {
+				lastErr = err
+				break
+			}
+			responses++
+			if responses == 1 && (len(resp.BatchItem) != 1 || resp.BatchItem[0].ResultStatus != kmip.ResultStatusOperationFailed) {
+				c.Violation("server-oversize:first-response", fmt.Sprintf("announced %d bytes: the first response is not a single failed item", vl), rep)
+			}
+			if responses >= 3 {
+				break
+			}
+		}
+		_ = a.Close()
+		_ = srv.Shutdown()
+		<-served
+		if responses > 1 || calls.Load() > 0 {
+			c.Violation("server-oversize:bytes-after-rejected-header-served", fmt.Sprintf("announced %d bytes (limit 1 MiB): the server sent %d responses and ran %d handler(s); the bytes following the rejected header were treated as messages", vl, responses, calls.Load()), rep)
+		} else if responses == 0 {
+			c.Violation("server-oversize:no-response", fmt.Sprintf("announced %d bytes: no response before the connection ended (%v)", vl, lastErr), rep)
+		} else if ne, ok := lastErr.(net.Error); ok && ne.Timeout() {
+			c07Inconclusive = true // the connection was still open after 20 s: not decided here (no wall-clock verdicts)
+			fmt.Printf("MACHINERY: server-oversize %d: the connection was not closed within 20 s; left undecided\n", vl)
+		}
+	}
+	return n
 }
